@@ -56,9 +56,9 @@ function parseNum(s) {
 }
 
 module.exports = function (repo, loadPrelude) {
-  const timers = [];
+  const timers = new Map(); let timerSeq = 0; // pending setTimeout callbacks (never fired by the harness unless a script says `tick`)
   let curPick = 0; // Math.random() is (curPick + 0.5) / 12: $select picks ready[floor((2*curPick+1)*n/24)]
-  const { P } = loadPrelude(repo, { random: () => (curPick + 0.5) / 12, now: () => 1000, setTimeout: (fn) => { timers.push(fn); return timers.length; }, clearTimeout: () => { } });
+  const { P } = loadPrelude(repo, { random: () => (curPick + 0.5) / 12, now: () => 1000, setTimeout: (fn) => { timers.set(++timerSeq, fn); return timerSeq; }, clearTimeout: (id) => { timers.delete(id); } });
   // the js package's Object type, declared the way the compiler emits it (compiler/natives/src/runtime/runtime.go:70 sets $jsObjectPtr)
   const X = P(`(function(){
      var Obj = $newType(0, $kindStruct, "js.Object", true, "github.com/gopherjs/gopherjs/js", true, function(o) { this.$val = this; if (arguments.length === 0) { this.object = null; return; } this.object = o; });
@@ -365,6 +365,92 @@ module.exports = function (repo, loadPrelude) {
     return out.join('|');
   }
 
+
+  // ---- histories of JavaScript-side events over the REAL $go / $goroutine / $runScheduled / $schedule ----
+  // Nothing here touches $curGoroutine: goroutines are created with $go and run by the real scheduler; their bodies are
+  // scripts written the way the compiler emits a blocking function (return an object with $blk to suspend).
+  //   go_<op>.<op>…   (ops: s<v> send, r recv, l<pick>:<case>+<case> select, p unrecovered panic, x return; "-" = empty)
+  //   cbsend_<v>  cbrecv  cbsel_<pick>_<case>.<case>   tick (the event loop fires the oldest pending timer)
+  const getCur = P('(function(){ return $curGoroutine; })');
+  const getCounters = P('(function(){ return [$awakeGoroutines, $totalGoroutines]; })');
+  const resetHist = P('(function(){ $scheduled = []; $curGoroutine = $noGoroutine; $awakeGoroutines = 0; $totalGoroutines = 0; $mainFinished = true; })');
+  const goFn = P('$go');
+  function parseComms(chan, cases, sep) {
+    return cases.split(sep).map(c => c === 'r' ? [chan] : c === 'd' ? [] : [chan, Number(c.slice(1))]);
+  }
+  function chanOp(chan, op) { // returns the raw result of the prelude call
+    if (op[0] === 's') return R.send(chan, Number(op.slice(1)));
+    if (op === 'r') return R.recv(chan);
+    const m = /^l(\d+):(.*)$/.exec(op);
+    curPick = Number(m[1]);
+    return R.select(parseComms(chan, m[2], '+'));
+  }
+  function hist(cap, evs) {
+    resetHist(); timers.clear();
+    const chan = new R.Chan(R.Int, cap);
+    let created = 0; const untagged = [];
+    function mkBody(id, prog) {
+      let pc = 0, pending = null, tagged = false;
+      const body = function () {
+        if (!tagged) { // the goroutine object is only reachable as $curGoroutine while it runs
+          const c = getCur(); if (c !== noGoroutine && c.gid === undefined) c.gid = id;
+          tagged = true; const k = untagged.indexOf(id); if (k >= 0) untagged.splice(k, 1);
+        }
+        for (;;) {
+          if (pending !== null) { const p = pending; pending = null; p.$blk(); pc++; continue; }
+          if (pc >= prog.length) return;
+          const op = prog[pc];
+          if (op === 'p') throw new Error('boom');   // a panic nobody recovers
+          if (op === 'x') return;
+          const r = chanOp(chan, op);
+          if (r && r.$blk !== undefined) { pending = r; return { $blk: body }; }
+          pc++;
+        }
+      };
+      return body;
+    }
+    const who = (g) => g === noGoroutine ? 'cb' : (g && g.gid !== undefined ? 'g' + g.gid : '?');
+    function outcome(f) {
+      try { return f(); } catch (e) {
+        const n = errName(e);
+        if (n !== null) return n;
+        if (e && e.message === 'boom') return 'threw';
+        throw e;
+      }
+    }
+    const out = [];
+    for (const ev of evs) {
+      const p = ev.split('_');
+      let obs;
+      if (p[0] === 'go') {
+        const id = created++; untagged.push(id);
+        const prog = p[1] === '-' ? [] : p[1].split('.');
+        obs = outcome(() => { goFn(mkBody(id, prog), []); return 'ok'; });
+      } else if (p[0] === 'tick') {
+        const first = timers.keys().next();
+        if (first.done) obs = 'idle';
+        else { const fn = timers.get(first.value); timers.delete(first.value); obs = outcome(() => { fn(); return 'ok'; }); }
+      } else {
+        obs = outcome(() => {
+          if (p[0] === 'cbsend') { const r = R.send(chan, Number(p[1])); return r && r.$blk !== undefined ? 'blocked' : 'done'; }
+          if (p[0] === 'cbrecv') { const r = R.recv(chan); if (r && r.$blk !== undefined) return 'blocked'; return r[1] ? 'value:' + r[0] : 'zero'; }
+          curPick = Number(p[1]);
+          const r = R.select(parseComms(chan, p[2], '.'));
+          if (r && r.$blk !== undefined) return 'blocked';
+          if (r.length === 1) return 'sel:' + r[0];
+          if (r[1] && r[1].$blk !== undefined) return 'blocked';
+          return 'sel:' + r[0] + (r[1][1] ? ':value:' + r[1][0] : ':zero');
+        });
+      }
+      const q = getSched();
+      for (const g of q) if (g !== noGoroutine && g.gid === undefined && untagged.length) g.gid = untagged.shift();
+      const cnt = getCounters();
+      out.push(obs + ' cur=' + who(getCur()) + ' buf=' + (chan.$buffer.length ? chan.$buffer.join(',') : '-') + ' sq=' + chan.$sendQueue.length +
+        ' rq=' + chan.$recvQueue.length + ' sched=' + (q.length ? q.map(who).join(',') : '-') + ' timers=' + timers.size + ' awake=' + cnt[0] + ' total=' + cnt[1]);
+    }
+    return out.join('|');
+  }
+
   return function (a) {
     reset();
     switch (a[0]) {
@@ -400,6 +486,7 @@ module.exports = function (repo, loadPrelude) {
         return U.list(out);
       }
       case 'guard': return guard(Number(a[1]), a[2].split('|'));
+      case 'hist': return hist(Number(a[1]), a[2].split('|'));
     }
     return 'bad-op';
   };
